@@ -9,8 +9,8 @@ TB = ("Trusted: rustc's MIR for the analysed configuration (nightly ad3a598ca, -
 CLAIMED = {
     "C04": dict(cat="translation_validation", ref="5/C04",
                 tech="abstract interpretation of MIR (bit-cursor provenance) + comparison with ITU-R M.1371 layout table",
-                text="For every partition of messages::parse (all payload lengths as intervals, all selector values, std+none quick, "
-                     "+alloc thorough) every public field's extracted provenance term is compared with the bit range ITU-R M.1371-5 "
+                text="For every partition of messages::parse (all payload lengths as intervals, all selector values, the three build "
+                     "configurations) every public field's extracted provenance term is compared with the bit range ITU-R M.1371-5 "
                      "assigns to it. Decides field positions/widths/identity for all inputs; value decoders are C10-C16."),
     "C09": dict(cat="translation_validation", ref="5/C09",
                 tech="abstract interpretation of MIR: dispatch partition of messages::parse over all 64 type values vs. table",
